@@ -187,6 +187,52 @@ def run_shard(args):
         return (b, unit, prof, f'ERROR pipeline rc={rc}')
     return (b, unit, prof, open(outp).read())
 
+def run_oracle_shard(args):
+    b, unit, work = args
+    req = f'{work}/{b}.{unit}.req'
+    if not os.path.exists(req) or os.path.getsize(req) == 0:
+        return ''
+    cmd = f'{HARNESS}/target/rel/{b} < {req} | python3-vt {VERIF}/tools/oracle_mp.py'
+    p = subprocess.run(['bash', '-o', 'pipefail', '-c', cmd], stdout=subprocess.PIPE, stderr=subprocess.STDOUT, text=True)
+    if p.returncode != 0:
+        return 'ERROR oracle rc=%d %s' % (p.returncode, p.stdout[-500:])
+    return p.stdout
+
+def step_oracle(ctx, cfg):
+    """C13-C16: judge the implementation's answers against the real-valued functions with the mpmath search oracle"""
+    work = ctx.work + '/req'
+    with ProcessPoolExecutor(NSHARDS) as ex:
+        outs = list(ex.map(run_oracle_shard, [(b, u, work) for u in range(NSHARDS) for b in cfg['bins']]))
+    known = load_known()
+    n = fails = 0
+    worst = {}
+    for out in outs:
+        if out.startswith('ERROR'):
+            ctx.broken.append('oracle:pipeline'); ctx.notes.append(out[:500]); continue
+        for line in out.splitlines():
+            if line.startswith('ORACLESTATS'):
+                kv = dict(x.split('=') for x in line.split()[1:])
+                n += int(kv['n']); fails += int(kv['fail'])
+            elif line.startswith('ORACLEWORST'):
+                parts = line.split(' ', 3)
+                r = float(parts[2].split('=')[1])
+                if r > worst.get(parts[1], (0, ''))[0]:
+                    worst[parts[1]] = (r, parts[3])
+            elif line.startswith('ORACLE '):
+                l = line[7:]
+                req = l.split(' => ')[0]
+                hit = None
+                for k in known:
+                    if finding_matches(k, ctx.prop, req, 'rel'):
+                        hit = k; break
+                if hit:
+                    ctx.known_hits.setdefault(hit['id'], [hit, 0, l])
+                    ctx.known_hits[hit['id']][1] += 1
+                else:
+                    ctx.failing.append(('rel-oracle', l))
+    ctx.oracle = dict(answers_judged=n, outside_bound=fails,
+                      worst_error_over_bound={k: round(v[0], 4) for k, v in sorted(worst.items(), key=lambda kv: -kv[1][0])[:12]})
+
 def load_known():
     out = []
     path = VERIF + '/known_findings.txt'
@@ -217,7 +263,8 @@ def finding_matches(k, prop, request, prof):
             ints.append(None)
     env['a'] = ints
     try:
-        return bool(eval(k['where'], {'__builtins__': {}, 'abs': abs, 'len': len, 'min': min, 'max': max}, env))
+        import math
+        return bool(eval(k['where'], {'__builtins__': {}, 'abs': abs, 'len': len, 'min': min, 'max': max, 'math': math, 'int': int, 'float': float}, env))
     except Exception:
         return False
 
@@ -339,6 +386,7 @@ def write_evidence(ctx, cfg, violations):
             'model_vs_impl_disagreements': st.get('diff', 0),
             'spec_vs_impl_failures': st.get('spec', 0),
             'known_findings_hit': {k: v[1] for k, v in ctx.known_hits.items()},
+            'search_oracle_mpmath': getattr(ctx, 'oracle', None),
             'broken_obligations': ctx.broken,
             'typed_layout_set': getattr(ctx, 'fracs_mode', 'quick'),
             'exhaustive': False,
@@ -361,8 +409,8 @@ def check(prop, tier):
     driver_ok = os.path.exists(DRIVER)
     if cargo_ok and driver_ok:
         step_correspondence(ctx, cfg)
-        if cfg.get('extra'):
-            cfg['extra'](ctx)
+        if cfg.get('oracle'):
+            step_oracle(ctx, cfg)
     elif cargo_ok and not driver_ok:
         ctx.notes.append('driver missing; correspondence not run')
     violations = 0
